@@ -851,6 +851,10 @@ func splitTopLevel(s string) []string {
 	return out
 }
 
+// propUses: property P -> properties whose clauses a check of P also activates (specs/uses.txt): the
+// contracts of P build on the invariants established for those properties in the same functions.
+var propUses = map[string][]string{}
+
 func clauseActive(c *Clause, prop string) bool {
 	if len(c.Tags) == 0 || prop == "" || prop == "*" {
 		return true
@@ -858,6 +862,11 @@ func clauseActive(c *Clause, prop string) bool {
 	for _, t := range c.Tags {
 		if t == prop {
 			return true
+		}
+		for _, u := range propUses[prop] {
+			if t == u {
+				return true
+			}
 		}
 	}
 	return false
